@@ -102,6 +102,11 @@ func displayPath(p string) string {
 
 // ---- access paths -------------------------------------------------------------------
 
+// pathAlias: while the literal returned by a closure factory is analysed at the place where the
+// closure is used, the factory's receiver and parameters stand for the receiver and arguments of
+// the factory call (root token -> the caller's path). Empty otherwise.
+var pathAlias = map[string]string{}
+
 // pathOf renders an expression as an access path "root@pos.f.g", following implicit
 // embedded fields. ok=false if the expression is not a pure path.
 func pathOf(info *types.Info, e ast.Expr) (string, bool) {
@@ -112,7 +117,11 @@ func pathOf(info *types.Info, e ast.Expr) (string, bool) {
 			obj = info.Defs[x]
 		}
 		if v, ok := obj.(*types.Var); ok {
-			return fmt.Sprintf("%s@%d", v.Name(), v.Pos()), true
+			tok := fmt.Sprintf("%s@%d", v.Name(), v.Pos())
+			if a, has := pathAlias[tok]; has {
+				return a, true
+			}
+			return tok, true
 		}
 		return "", false
 	case *ast.ParenExpr:
@@ -240,6 +249,9 @@ type FlowOpts struct {
 	// May switches to a may-held analysis (union at joins); a deferred unlock releases at
 	// once (the lock is certainly released at exit from then on). Used for leak checks.
 	May bool
+	// SkipLit: a literal that is not analysed where it is written (the literal a closure factory
+	// returns, when every use of the factory is analysed at the place the closure is used).
+	SkipLit func(lit *ast.FuncLit) bool
 	// OnExit is called for every normal exit (return statement or falling off the end)
 	// with the lockset there.
 	OnExit func(pos token.Pos, held LockSet)
@@ -287,6 +299,12 @@ func mayReturn(info *types.Info) func(*ast.CallExpr) bool {
 // AnalyzeLocks runs the lockset analysis on a function body and calls visit for every
 // node (statement-level and nested expression nodes) in evaluation order.
 func AnalyzeLocks(body *ast.BlockStmt, entry LockSet, opts *FlowOpts, visit Visitor) {
+	analyzeLocksIn(body, entry, opts, visit, nil, nil, nil)
+}
+
+// analyzeLocksIn: outerLits / outerAlias are the closures bound to locals of the enclosing
+// functions (a literal nested in a function can call a closure its parent bound to a local).
+func analyzeLocksIn(body *ast.BlockStmt, entry LockSet, opts *FlowOpts, visit Visitor, outerLits map[types.Object]*ast.FuncLit, outerAlias map[*ast.FuncLit]map[string]string, outerAnalysed map[*ast.FuncLit]bool) {
 	if body == nil {
 		return
 	}
@@ -357,11 +375,23 @@ func AnalyzeLocks(body *ast.BlockStmt, entry LockSet, opts *FlowOpts, visit Visi
 	// reporting pass
 	pendingLits := map[types.Object]*ast.FuncLit{}
 	analysedLits := map[*ast.FuncLit]bool{}
+	if outerAnalysed != nil {
+		analysedLits = outerAnalysed // one record per outermost function: a closure bound outside and called in here is used
+	}
+	litAlias := map[*ast.FuncLit]map[string]string{}
+	inherited := map[*ast.FuncLit]bool{}
+	for k, v := range outerLits {
+		pendingLits[k] = v
+		inherited[v] = true
+	}
+	for k, v := range outerAlias {
+		litAlias[k] = v
+	}
 	for _, b := range g.Blocks {
 		if !visited[b.Index] {
 			continue
 		}
-		w := &walker{opts: opts, st: in[b.Index], visit: visit, pendingLits: pendingLits, analysedLits: analysedLits}
+		w := &walker{opts: opts, st: in[b.Index], visit: visit, pendingLits: pendingLits, analysedLits: analysedLits, litAlias: litAlias}
 		for _, n := range b.Nodes {
 			w.node(n, nil)
 		}
@@ -386,12 +416,16 @@ func AnalyzeLocks(body *ast.BlockStmt, entry LockSet, opts *FlowOpts, visit Visi
 	// closures bound to locals that were never called or passed: analyse with empty set
 	var rest []*ast.FuncLit
 	for _, lit := range pendingLits {
-		if !analysedLits[lit] {
+		if !analysedLits[lit] && !inherited[lit] {
 			rest = append(rest, lit)
 		}
 	}
 	sort.Slice(rest, func(i, j int) bool { return rest[i].Pos() < rest[j].Pos() })
 	for _, lit := range rest {
+		if alias := litAlias[lit]; alias != nil {
+			(&walker{opts: opts, visit: visit}).litAliased(lit, LockSet{}, alias)
+			continue
+		}
 		AnalyzeLocks(lit.Body, LockSet{}, opts, visit)
 	}
 }
@@ -402,6 +436,7 @@ type walker struct {
 	visit        Visitor
 	pendingLits  map[types.Object]*ast.FuncLit
 	analysedLits map[*ast.FuncLit]bool
+	litAlias     map[*ast.FuncLit]map[string]string // literals that came out of a closure factory
 }
 
 func (w *walker) emit(n ast.Node, stack []ast.Node) {
@@ -410,14 +445,82 @@ func (w *walker) emit(n ast.Node, stack []ast.Node) {
 	}
 }
 
+// factoryLit: e is a call of a closure factory of the analysed package: the literal it returns and
+// the aliases that bind the factory's receiver and parameters to this call.
+func (w *walker) factoryLit(e ast.Expr) (*ast.FuncLit, map[string]string) {
+	call, ok := ast.Unparen(e).(*ast.CallExpr)
+	if !ok {
+		return nil, nil
+	}
+	info := w.opts.Info
+	p := progOfInfo[info]
+	if p == nil {
+		return nil, nil
+	}
+	lit, fd := closureFactory(p, info, call)
+	if lit == nil {
+		return nil, nil
+	}
+	alias := map[string]string{}
+	if fd.Recv != nil && len(fd.Recv.List) == 1 && len(fd.Recv.List[0].Names) == 1 {
+		if ro := info.Defs[fd.Recv.List[0].Names[0]]; ro != nil {
+			if se, isSel := ast.Unparen(call.Fun).(*ast.SelectorExpr); isSel {
+				if sel := info.Selections[se]; sel != nil {
+					if base, okp := pathOf(info, se.X); okp {
+						alias[fmt.Sprintf("%s@%d", ro.Name(), ro.Pos())] = base + embeddedChain(sel, len(sel.Index())-1)
+					}
+				}
+			}
+		}
+	}
+	i := 0
+	for _, fl := range fd.Type.Params.List {
+		for _, nm := range fl.Names {
+			if po := info.Defs[nm]; po != nil && i < len(call.Args) {
+				if ap, okp := pathOf(info, call.Args[i]); okp {
+					alias[fmt.Sprintf("%s@%d", po.Name(), po.Pos())] = ap
+				}
+			}
+			i++
+		}
+	}
+	return lit, alias
+}
+
+// litAliased analyses a factory's literal under the aliases of the factory call.
+func (w *walker) litAliased(lit *ast.FuncLit, entry LockSet, alias map[string]string) {
+	if w.visit == nil {
+		return
+	}
+	saved := pathAlias
+	merged := map[string]string{}
+	for k, v := range saved {
+		merged[k] = v
+	}
+	for k, v := range alias {
+		merged[k] = v
+	}
+	pathAlias = merged
+	defer func() { pathAlias = saved }()
+	w.lit(lit, entry)
+}
+
 func (w *walker) lit(lit *ast.FuncLit, entry LockSet) {
 	if w.visit == nil {
 		return // fixpoint pass: closures do not change the enclosing function's lockset
 	}
+	if alias := w.litAlias[lit]; alias != nil {
+		// bound to a local earlier: analyse under the aliases of the factory call that produced it
+		saved := w.litAlias
+		w.litAlias = nil
+		w.litAliased(lit, entry, alias)
+		w.litAlias = saved
+		return
+	}
 	if w.analysedLits != nil {
 		w.analysedLits[lit] = true
 	}
-	AnalyzeLocks(lit.Body, entry, w.opts, w.visit)
+	analyzeLocksIn(lit.Body, entry, w.opts, w.visit, w.pendingLits, w.litAlias, w.analysedLits)
 }
 
 // node walks n in evaluation order.
@@ -506,11 +609,33 @@ func (w *walker) node(n ast.Node, stack []ast.Node) {
 			}
 		}
 		w.emit(x, stack)
+		if w.opts.SkipLit != nil && w.opts.SkipLit(x) {
+			return
+		}
 		w.lit(x, LockSet{})
 		return
 	case *ast.AssignStmt:
 		w.emit(x, stack)
 		st2 := append(stack, n)
+		// `f := recv.factory(args)`: f is the literal the factory returns, analysed where f is used
+		if len(x.Lhs) == len(x.Rhs) && w.pendingLits != nil {
+			for i, r := range x.Rhs {
+				if id, isId := x.Lhs[i].(*ast.Ident); isId {
+					if lit, alias := w.factoryLit(r); lit != nil {
+						obj := w.opts.Info.Defs[id]
+						if obj == nil {
+							obj = w.opts.Info.Uses[id]
+						}
+						if obj != nil {
+							w.pendingLits[obj] = lit
+							if w.litAlias != nil {
+								w.litAlias[lit] = alias
+							}
+						}
+					}
+				}
+			}
+		}
 		for _, r := range x.Rhs {
 			w.node(r, st2)
 		}
@@ -601,6 +726,13 @@ func (w *walker) callParts(call *ast.CallExpr, stack []ast.Node, deferred bool) 
 		case *ast.FuncLit:
 			w.lit(av, entry())
 			continue
+		case *ast.CallExpr:
+			// `Range(recv.factory(args))`: the closure the factory returns is the callback
+			if lit, alias := w.factoryLit(av); lit != nil && w.visit != nil {
+				w.node(a, st2)
+				w.litAliased(lit, entry(), alias)
+				continue
+			}
 		case *ast.Ident:
 			if w.pendingLits != nil {
 				if obj := w.opts.Info.Uses[av]; obj != nil {
